@@ -532,10 +532,19 @@ def check_cache_key(ctx: Ctx) -> None:
     keyn = {"__last_diff_inouts", mangle("JacobianAssembly", "__last_diff_inouts")}
     valn = {"__minimal_couplings", mangle("JacobianAssembly", "__minimal_couplings")}
     tests = [n for n in cfg.nodes(lambda k: cfg.kind[k] == "test") if any(isinstance(a, ast.Attribute) and a.attr in keyn for a in ast.walk(cfg.ast[n].test))]
-    ctx.need(len(tests) == 1, "_compute_diff_ios_and_couplings: the cache test was not found")
+    if len(tests) != 1:
+        # the stored key is read elsewhere (unpacked into locals, compared piecewise): whatever the test then is, it is
+        # not "the stored request EQUALS the current request", the only condition under which the cached couplings are
+        # those of the current request (a request is a pair of SETS: a subset needs fewer couplings, a superset more)
+        reads = [s_ for s_ in stmts_of(f) if any(isinstance(a, ast.Attribute) and a.attr in keyn and isinstance(a.ctx, ast.Load) for a in ast.walk(s_))]
+        ctx.need(reads, "_compute_diff_ios_and_couplings: the cache key is never read")
+        ctx.ob("7.5-cache-key", con, False, "the minimal-couplings cache must be reused only when the stored request equals the current one (`self.__last_diff_inouts != diff_ios` decides the recomputation): the key is taken apart and compared piecewise, so that another request can be served the cached couplings", node=reads[0], stmt="cache reused iff the stored request equals the current one")
+        return
     t = tests[0]
     cp = compare_parts(cfg.ast[t].test)
-    ctx.need(cp is not None, "_compute_diff_ios_and_couplings: the cache test is not a comparison")
+    if cp is None:
+        ctx.ob("7.5-cache-key", con, False, "the cache test is not a comparison of the stored request with the current one", node=cfg.ast[t], stmt="cache reused iff the stored request equals the current one")
+        return
     other = cp[2] if isinstance(cp[0], ast.Attribute) and cp[0].attr in keyn else cp[0]
     # the request the stored key is compared with, whatever local carries it
     req = unfolded(f, other) or [other]
